@@ -115,7 +115,9 @@ def main():
     assert rc == 0, o
     os.makedirs(OUT, exist_ok=True)
     rc, files = sh('git -C %s ls-files "rtamt/*.py"' % WT)
-    files = [f for f in files.split() if any(f.startswith(t) for t in (prefixes or TARGETS)) and not f.endswith('__init__.py') and '/antlr/' not in f]
+    order = prefixes or TARGETS
+    files = [f for f in files.split() if any(f.startswith(t) for t in order) and not f.endswith('__init__.py') and '/antlr/' not in f]
+    files.sort(key=lambda f: min(i for i, t in enumerate(order) if f.startswith(t)))
     env = dict(os.environ, RTAMT_REPO=WT, VERIF_OUTDIR=OUT, PYTHONPATH=WT)
     res = json.load(open(outf)) if os.path.exists(outf) else {'mutants': []}
     done = {(m['file'], m['line'], m['new'].strip()) for m in res['mutants']}
